@@ -19,7 +19,7 @@ Your task: produce ONE realistic change to the library source under {wt}/transac
 
 Deliverables (put them in /tmp/mutwork_{pid}/):
  1. `patch.diff` — `git -C {wt} diff` of your change (source files under transactron/ only; do not edit tests).
- 2. `demo.py` (or `test_demo.py`) — a small self-contained demonstration (a pytest test or a script using amaranth.sim / the library's own testing helpers, or plain Python for pure-Python code) that FAILS (non-zero exit / failing assertion) with your change applied and PASSES on the unmodified code. Run it both ways and record the outputs (use `git -C {wt} stash` / `git -C {wt} stash pop` to switch).
+ 2. `demo.py` (or `test_demo.py`) — a small self-contained demonstration (a pytest test or a script using amaranth.sim / the library's own testing helpers, or plain Python for pure-Python code) that FAILS (non-zero exit / failing assertion) with your change applied and PASSES on the unmodified code. Run it both ways and record the outputs (to switch use `git -C {wt} diff > /tmp/mutwork_{pid}/patch.diff; git -C {wt} apply -R /tmp/mutwork_{pid}/patch.diff` and `git -C {wt} apply /tmp/mutwork_{pid}/patch.diff`; do NOT use `git stash`: the stash is shared between all worktrees of the repository and other people work in sibling worktrees).
  3. `meta.json` — {{"property": "{p['id']}", "summary": one sentence describing the change, "needs_to_manifest": what specific input/sequence/configuration exposes it, "tests_run": the pytest commands you ran and their results}}.
 
 Test suite: the full suite is `cd {wt} && PYTHONPATH={wt} /venv/bin/python -m pytest -q -p no:cacheprovider --timeout=900 -n 4` (1735 tests, takes several minutes; the machine is shared and loaded, so be patient and use a long timeout). First run only the test files relevant to the code you touch to iterate quickly, then run the full suite ONCE with your final change and report the exact summary line. All tests must pass with your change (if a few tests fail identically on the unmodified code because of machine load/timeouts, say so explicitly and show it).
